@@ -117,7 +117,7 @@ func compare(a, b interface{}, c collate) int {
 		case int64:
 			return cmpInt64(at, bt)
 		case float64:
-			return cmpFloat64(float64(at), bt)
+			return cmpInt64Float64(at, bt)
 		case string, []byte:
 			return -1
 		default:
@@ -128,7 +128,7 @@ func compare(a, b interface{}, c collate) int {
 		case nil:
 			return 1
 		case int64:
-			return cmpFloat64(at, float64(bt))
+			return -cmpInt64Float64(bt, at)
 		case float64:
 			return cmpFloat64(at, bt)
 		case string, []byte:
@@ -182,4 +182,22 @@ func cmpFloat64(a, b float64) int {
 	default:
 		return 1
 	}
+}
+
+// cmpInt64Float64 compares an integer with a float by exact numeric value,
+// same as SQLite's sqlite3IntFloatCompare(). Converting the int64 to float64
+// first would lose precision for values over 2^53.
+func cmpInt64Float64(i int64, r float64) int {
+	if r < -9223372036854775808.0 {
+		return 1
+	}
+	if r >= 9223372036854775808.0 {
+		return -1
+	}
+	if y := int64(r); i < y {
+		return -1
+	} else if i > y {
+		return 1
+	}
+	return cmpFloat64(float64(i), r)
 }
